@@ -919,12 +919,22 @@ func rulesC10(w *World, r *Report) {
 			ix, iy := idxOf(strings.TrimSuffix(x, ")")), idxOf(strings.TrimSuffix(y, ")"))
 			okIdx := (strings.HasPrefix(ix, "[0]") && strings.HasPrefix(iy, "[i")) || (strings.HasPrefix(iy, "[0]") && strings.HasPrefix(ix, "[i"))
 			sameBase := strings.Replace(x, ix, "", 1) == strings.Replace(y, iy, "", 1)
+			// ... or the other files are walked as the tail of the slice: B[0] against every element of B[1:]
+			tail := false
+			for _, xy := range [][2]string{{x, y}, {y, x}} {
+				if m := reTailElem.FindStringSubmatch(xy[1]); m != nil && xy[0] == m[1]+"[0]"+m[2] {
+					tail = true
+				}
+			}
+			if tail {
+				okIdx, sameBase = true, true
+			}
 			r.Check(okIdx && sameBase, "C10.R2", key+":pairs", w.instrPos(call), "compares file 0 with file i", "the "+chk.name+" check does not compare file 0 with every other file: "+x+" vs "+y)
 			// loop index covers 1..len-1
 			okLoop := false
 			for _, arg := range call.Common().Args {
 				for _, l := range indexPhis(arg) {
-					if loopFromTo(l, 1) {
+					if loopFromTo(l, 1) || (tail && loopFromTo(l, -1)) {
 						okLoop = true
 					}
 				}
@@ -1344,6 +1354,9 @@ func rulesC10(w *World, r *Report) {
 }
 
 // indexPhis returns integer phis used as slice indices inside v's expression.
+// reTailElem: an element of the tail B[1:] of a slice, indexed by a loop counter.
+var reTailElem = regexp.MustCompile(`^(.*)\[1:\]\[(?:\(i\d+ \+ 1\)|i\d+)\](.*)$`)
+
 func indexPhis(v ssa.Value) []*ssa.Phi {
 	var out []*ssa.Phi
 	seen := map[ssa.Value]bool{}
@@ -1357,6 +1370,14 @@ func indexPhis(v ssa.Value) []*ssa.Phi {
 		case *ssa.IndexAddr:
 			if ph, ok := x.Index.(*ssa.Phi); ok {
 				out = append(out, ph)
+			}
+			// the index of a range loop is counter+1
+			if bo, ok := x.Index.(*ssa.BinOp); ok && bo.Op == token.ADD {
+				if ph, ok := bo.X.(*ssa.Phi); ok {
+					if k, isK := constInt(bo.Y); isK && k == 1 {
+						out = append(out, ph)
+					}
+				}
 			}
 			rec(x.X, d+1)
 		case *ssa.UnOp:
